@@ -10,7 +10,8 @@ def grid(R):
     counts = [0, 1000, 4, 999999999, U64] if quick else \
              [0, 1, 4, 5, 6, 11, 12, 31, 32, 999, 1000, 1001, 9999, 10000, 10001, 100000, 32768, 262144,
               999999999, 1000000000, 2**32 - 1, 2**32, U64 - 65536, U64]
-    nrbs = [0, 3, 8, 16, 64] if quick else [0, 1, 2, 3, 4, 6, 8, 9, 15, 16, 17, 20, 32, 63, 64, 65, 128, 256]
+    # (more than 64 bytes: the writers cap what they consume at different places - seeded/C13g needs 65..123)
+    nrbs = [0, 3, 8, 16, 64, 65, 100] if quick else [0, 1, 2, 3, 4, 6, 8, 9, 15, 16, 17, 20, 32, 63, 64, 65, 80, 96, 100, 123, 124, 128, 200, 256]
     sizes = list(range(-2, 257))
     ops, meta = [], []
     for (name, pfx), c, n in itertools.product(prefixes, counts, nrbs):
